@@ -163,7 +163,7 @@ theorem session_no_early_delivery (timeout ooo lateness : Int) (ht : 0 < timeout
     (hni : ∀ op ∈ ops, NoIdle op) :
     ∀ e ∈ (run (init timeout ooo lateness) ops).2, e.late = false → ∃ m ∈ ingested ops, e.stop + ooo ≤ m := by
   intro e he hl
-  obtain ⟨_, y, hy, hey⟩ := run_firsts (init timeout ooo lateness) ops (inv_init timeout ooo lateness ht) e he hl
+  obtain ⟨_, _, y, hy, hey⟩ := run_firsts (init timeout ooo lateness) ops (inv_init timeout ooo lateness ht) e he hl
   have hw := run_wm (init timeout ooo lateness) ops [] (by intro c h; cases h) (by intro m h; cases h) hni
   obtain ⟨m, hm, hle⟩ := hw.1 y hy
   rw [hw.2.2] at hle
@@ -171,13 +171,10 @@ theorem session_no_early_delivery (timeout ooo lateness : Int) (ht : 0 < timeout
 
 theorem session_drop_only_if_late (w : SWin) (k : Key) (r : Row) (now : Int) (h : fate w k r now = .lateDrop) :
     lateNow w r now = true := by
-  unfold fate at h
-  split at h
-  · assumption
-  · unfold onTimeFate at h
-    split at h
-    · cases h
-    · unfold headFate at h; split at h <;> cases h
+  by_cases hl : lateNow w r now = true
+  · exact hl
+  · have hl' : lateNow w r now = false := by simpa using hl
+    rcases fate_ontime w k r now hl' with ⟨h', _⟩ | ⟨t, os, h', _⟩ <;> rw [h'] at h <;> cases h
 
 /-- a late row is absorbed only by a triggered session of its own key that contains it and is still
 inside its allowance; the re-delivery carries that session's rows followed by the late row -/
@@ -204,9 +201,7 @@ theorem session_late_update (w : SWin) (k : Key) (r : Row) (now : Int) (t : Trig
       · cases h
     · cases h
   · unfold onTimeFate at h
-    split at h
-    · cases h
-    · unfold headFate at h; split at h <;> cases h
+    split at h <;> cases h
 
 end session
 
